@@ -225,6 +225,28 @@ pub fn test_prog_cap(c: &ProgCapCase) -> Verdict {
     if must_fail && !cap_err {
         return Verdict::fail(format!("the program needs more than the caps allow but the capped run did not fail on a cap: {}\n {}", capped.show(&i), ctx()));
     }
+    // (the converse - "fails on a cap only when it would exceed" - is decided exactly in the histories part; here the
+    // sampled peaks are lower bounds, because run_program also allocates outside operator calls)
+    // Reclamation may not move a cap: the same capped allocator without ENABLE_GC must give the same outcome
+    if pc.flags & crate::util::F_ENABLE_GC != 0 {
+        let mut a2 = Allocator::new_limited(limit);
+        if a2.add_ghost_atom((MAX_ATOMS - room_atoms) as usize).is_ok()
+            && a2.add_ghost_pair((MAX_PAIRS - room_pairs) as usize).is_ok()
+            && let (Ok(p2), Ok(e2)) = (build(&mut a2, &pc.p.prog), build(&mut a2, &pc.p.env))
+        {
+            let d2 = clvmr::chia_dialect::ChiaDialect::new(crate::util::flags(pc.flags & !crate::util::F_ENABLE_GC));
+            let r2 = guard(|| clvmr::run_program::run_program(&mut a2, &d2, p2, e2, budget));
+            let plain = to_out(&a2, &mut i, r2);
+            if plain != capped {
+                return Verdict::fail(format!(
+                    "with the same caps the run gives {} with ENABLE_GC and {} without: reclamation moved a cap\n {}",
+                    capped.show(&i),
+                    plain.show(&i),
+                    ctx()
+                ));
+            }
+        }
+    }
     // caps that are not hit are unobservable
     if !cap_err && capped != roomy {
         return Verdict::fail(format!("no cap was hit, yet the outcome differs from the unconstrained run: capped {} unconstrained {}\n {}", capped.show(&i), roomy.show(&i), ctx()));
